@@ -138,6 +138,27 @@ theorem msl_runtime_in_buffer (size off stride i : W) (hs : 0 < stride.toNat) (h
   have := Nat.mul_le_mul_right stride.toNat this
   omega
 
+/-- The general form the writer uses, `(size - off - a) / stride` with `a` between the element's size and its stride
+(for `array<vec3<f32>>`: a = 12 under ReadZeroSkipWrite, a = 16 under Restrict, stride = 16): every admitted index
+addresses `a` bytes — hence a whole element — inside the buffer.  The probe `vh crtguards` reads (off, a, stride) from
+the real text and checks off = the member's WGSL offset, size(E) ≤ a ≤ stride(E), stride = stride(E). -/
+theorem msl_runtime_elem_in_buffer (size off a stride i : W) (hs : 0 < stride.toNat) (h : off.toNat + a.toNat ≤ size.toNat)
+    (hi : i.toNat ≤ ((size - off - a) / stride).toNat) :
+    off.toNat + i.toNat * stride.toNat + a.toNat ≤ size.toNat := by
+  have h1 : (size - off).toNat = size.toNat - off.toNat := by
+    rw [BitVec.toNat_sub_of_le (by rw [BitVec.le_def]; omega)]
+  have h2 : (size - off - a).toNat = size.toNat - off.toNat - a.toNat := by
+    rw [BitVec.toNat_sub_of_le (by rw [BitVec.le_def]; omega), h1]
+  rw [BitVec.toNat_udiv, h2] at hi
+  have hdiv := Nat.div_mul_le_self (size.toNat - off.toNat - a.toNat) stride.toNat
+  have := Nat.mul_le_mul_right stride.toNat hi
+  omega
+
+/-- with the element size in place of the stride the quotient admits indices past the end: a 64-byte binding of
+`array<vec3<f32>>` (4 elements of stride 16) and the divisor 12 admit index 4, whose element ends at byte 76. -/
+theorem msl_runtime_wrong_divisor_witness :
+    ((64#32 - 0#32 - 12#32) / 12#32 : W) = 4#32 ∧ 0 + 4 * 16 + 12 > 64 := by decide
+
 /-- Outside that precondition the bound wraps around: a 0-byte binding with 4-byte elements admits
 index 2^30 - 1 (the precondition is WebGPU's minimum-binding-size validation, not naga's). -/
 theorem msl_runtime_bound_wraps : ((0#32 - 0#32 - 4#32) / 4#32 : W) = 1073741823#32 := by decide
